@@ -155,6 +155,36 @@ SemiNaiveResult(P0, edb) ==
        init == AddFacts(P, EmptyDb(P), UNION { { <<r, t>> : t \in edb[r] } : r \in DOMAIN edb })
    IN  EvalSccs(P, rs, SccOrder(rs), 1, init)
 
+(* ---- run_timeout (C14) at the level of the strategy: the deadline is checked after every iteration of every SCC; *)
+(* when it fires the program value keeps the rows it has (the indices are dropped) and a later run()/run_timeout  *)
+(* starts again from those rows. PartialStates = every database a timeout can leave behind.                       *)
+RECURSIVE LoopDbs(_, _, _, _, _, _)
+LoopDbs(P, rs, scc, dyn, st, fuel) ==
+   LET st2 == Iteration(P, rs, scc, dyn, st)
+   IN  { st2.db } \cup (IF ~st2.changed \/ fuel = 0 THEN {} ELSE LoopDbs(P, rs, scc, dyn, st2, fuel - 1))
+
+RECURSIVE PartialFrom(_, _, _, _, _)
+PartialFrom(P, rs, order, i, db) ==
+   IF i > Len(order) THEN {}
+   ELSE LET scc == order[i]
+            dyn == Dynamic(rs, scc)
+            st0 == [ total |-> TLCEval([ r \in dyn |-> {} ]), delta |-> TLCEval([ r \in dyn |-> db[r] ]), db |-> db, changed |-> TRUE ]
+            here == IF IsLooping(rs, scc) THEN LoopDbs(P, rs, scc, dyn, st0, 200) ELSE { Iteration(P, rs, scc, dyn, st0).db }
+        IN  here \cup PartialFrom(P, rs, order, i + 1, EvalScc(P, rs, scc, db))
+
+PartialStates(P0, edb) ==
+   LET P == Elaborate(P0)
+       rs == ConjRules(P)
+       init == AddFacts(P, EmptyDb(P), UNION { { <<r, t>> : t \in edb[r] } : r \in DOMAIN edb })
+   IN  PartialFrom(P, rs, SccOrder(rs), 1, init)
+
+(* every state a timeout can leave is sound, and resuming from it (a fresh evaluation over the rows left behind) *)
+(* reaches exactly the least model of an uninterrupted run                                                       *)
+TimeoutStatesSoundAndResumable(P0, edb) ==
+   LET lm == LeastModel(P0, edb)
+       EP == Elaborate(P0)
+   IN  \A s \in PartialStates(P0, edb) : DbBelow(EP, s, lm) /\ SemiNaiveResult(P0, s) = lm
+
 (* the plan, for comparison with `Program::summary()` *)
 PlanOf(P0) ==
    LET P == Elaborate(P0)
